@@ -121,8 +121,8 @@ def harness_obj(src, sanclass, extra_flags=(), tag=""):
     return out
 
 DRIVERS = {
-    "drv_seq": ["drv_seq.cpp", "seq_malformed.cpp", "seq_harden.cpp", "seq_os.cpp", "seq_arena.cpp", "vf_common.c", "vf_os.c"],
-    "drv_mt":  ["drv_mt.cpp", "vf_common.c", "vf_os.c", "vf_sched.c"],
+    "drv_seq": ["drv_seq.cpp", "seq_malformed.cpp", "seq_harden.cpp", "seq_os.cpp", "seq_arena.cpp", "vf_common.c", "vf_os.cpp"],
+    "drv_mt":  ["drv_mt.cpp", "vf_common.c", "vf_os.cpp", "vf_sched.c"],
 }
 
 def driver(name, variant):
